@@ -12,6 +12,7 @@ import (
 	"testing"
 
 	"github.com/fabiolb/fabio/config"
+	"github.com/fabiolb/fabio/metrics"
 	"github.com/fabiolb/fabio/route"
 	"github.com/fabiolb/fabio/zzverif/ev"
 )
@@ -19,7 +20,7 @@ import (
 // C15 (runnable): a configuration that Load accepts can be run.
 func TestVerifC15Runnable(t *testing.T) {
 	L := ev.Begin("C15", "c15-runnable", "exploration",
-		"every value of glob.cache.size in {-1,0,1,2,1000} x glob.matching.disabled x proxy.strategy {rr, rnd, other letter case, unknown} x proxy.matcher {prefix, glob, iprefix, other letter case, unknown}: if config.Load accepts it, main.newHTTPProxy is built from it and serves 4 lookups over a table with 3 glob hosts (more patterns than a cache of size 1 or 2 holds) without panicking. non-trivial = accepted configuration")
+		"every value of glob.cache.size in {-1,0,1,2,1000,MaxInt64} x glob.matching.disabled x proxy.strategy {rr, rnd, other letter case, unknown} x proxy.matcher {prefix, glob, iprefix, other letter case, unknown}: if config.Load accepts it, main.newHTTPProxy is built from it and serves 4 lookups over a table with 3 glob hosts (more patterns than a cache of size 1 or 2 holds) without panicking; plus metrics.prometheus.buckets over 8 lists (unsorted, duplicate, negative, non-finite) x target {prometheus, flat}: an accepted one is initialised as main does and observes once. non-trivial = accepted configuration")
 	up := httptest.NewServer(http.HandlerFunc(func(w http.ResponseWriter, r *http.Request) { w.Write([]byte("ok")) }))
 	defer up.Close()
 	up2 := httptest.NewServer(http.HandlerFunc(func(w http.ResponseWriter, r *http.Request) { w.Write([]byte("ok")) }))
@@ -30,7 +31,7 @@ func TestVerifC15Runnable(t *testing.T) {
 		panic(err)
 	}
 	route.SetTable(tbl)
-	for _, size := range []string{"-1", "0", "1", "2", "1000"} {
+	for _, size := range []string{"-1", "0", "1", "2", "1000", "9223372036854775807"} {
 		for _, gd := range []string{"true", "false"} {
 			for _, st := range []string{"rr", "rnd", "RR", "Rnd", "random"} {
 				for _, m := range []string{"prefix", "glob", "iprefix", "Glob", "PREFIX", "regexp"} {
@@ -73,6 +74,45 @@ func TestVerifC15Runnable(t *testing.T) {
 						L.Violation("accepted-configuration-panics-at-request-time/"+cls, d)
 					}
 				}
+			}
+		}
+	}
+	// metrics: an accepted histogram configuration must survive its first observation (the request path observes)
+	for bi, b := range []string{"", ".005,.01,.1,1", "1,0.5", "1,1", "0.5", "-1,0,1", "1,NaN", "Inf"} {
+		for _, target := range []string{"prometheus", "flat"} {
+			args := []string{"fabio", "-metrics.target=" + target}
+			if b != "" {
+				args = append(args, "-metrics.prometheus.buckets="+b)
+			}
+			L.Case()
+			var cfg *config.Config
+			var lerr error
+			msg, _, pan := ev.Guard(func() { cfg, lerr = config.Load(args, nil) })
+			d := map[string]interface{}{"args": args}
+			if pan {
+				d["panic"] = msg
+				L.Violation("load-panics", d)
+				continue
+			}
+			if lerr != nil {
+				L.Outcome("rejected")
+				continue
+			}
+			L.NontrivialKey(fmt.Sprint(args))
+			L.Outcome("accepted")
+			msg, stack, pan := ev.Guard(func() {
+				p, err := metrics.Initialize(&cfg.Metrics)
+				if err != nil {
+					return // refused at start-up with an error: that is not running
+				}
+				// the prometheus registry is process-wide: one metric name per case
+				h := p.NewHistogram(fmt.Sprintf("verif.c15.h%d", bi), "code")
+				h.With("code", "200").Observe(0.3)
+				p.NewCounter(fmt.Sprintf("verif.c15.c%d", bi)).Add(1)
+			})
+			if pan {
+				d["panic"], d["stack"] = msg, stack
+				L.Violation("accepted-configuration-panics-at-request-time/metrics.prometheus.buckets", d)
 			}
 		}
 	}
